@@ -33,6 +33,11 @@ const (
 )
 
 func run(c *core.Case) {
+	if poisoned.Load() {
+		// a library goroutine of an earlier case of this child spins on a CPU
+		c.Count("skipped_after_spinning_goroutine", 1)
+		return
+	}
 	block, off := c.Index/period, c.Index%period
 	if off < w1per {
 		runScript(c, genScript(c.Rand, block*w1per+off))
@@ -66,6 +71,11 @@ func Prop() *core.Prop {
 		"w1_nil_callback_cases", "w1_nil_callback_cases:muc-invite", "w1_nil_callback_cases:muc-direct-invite", "w1_nil_callback_cases:muc-room",
 		"w1_nil_callback_cases:receipts-received", "w1_nil_callback_cases:mam-untracked", "w1_nil_callback_cases:block", "w1_nil_callback_cases:unblock",
 		"w1_nil_callback_cases:block-list", "w1_nil_callback_cases:time", "w1_nil_callback_cases:bob",
+		// transport faults: failing writes with replies that fill the output buffer, failing reads of every shape, read deadline
+		"fault_armed:write-fail", "fault_armed:write-break", "fault_armed:read-timeout", "fault_armed:read-timeout-wrapped",
+		"fault_armed:read-temporary", "fault_armed:read-plain", "fault_armed:read-deadline", "fault_with_close_deadline",
+		// list replies with empty / payload-less / text-only / foreign entries
+		"reply_degenerate-entries", "mut_entry-degenerate",
 		"history_iter_closed_early", "history_iter_closed_early_with_result_in_flight", "history_iter_early_close_returned", "iter_closed_early"}
 	for _, h := range helpers {
 		req = append(req, "helper_value:"+h.name)
